@@ -2,12 +2,16 @@
    PARTIAL: operator new[] is an oracle (a `new` that the fault schedule makes throw std::bad_alloc) and
    std::vector growth (split/tokenize) is trusted to have the strong guarantee; what is proved is the order
    of allocate / release / commit in the library's own buffer, string and string_stream code.
-   `arm st` = the state st with the NEXT allocation scheduled to fail.  Every buffer member and every
-   string operation performs at most one allocation, so `arm` covers "every allocation it performs".
-   Statements only; proofs in Mem/Faults.v, Mem/StreamFaults.v.                                      *)
+   `arm st` = the state st with the NEXT allocation scheduled to fail; `with_fail st (Some k)` = the k-th
+   allocation from now fails.  Every buffer member performs at most one allocation (c19_allocation_count);
+   the schedule is transparent to the allocations before the k-th one (c19_schedule_transparent), so for an
+   operation with several allocations (temporaries, then the result: Mem/StringOps.TFreshVia) and for any
+   history the fault at ANY of its allocations is covered (c19_any_allocation_of_a_history / _of_an_operation).
+   Statements only; proofs in Mem/Faults.v, Mem/FailCount.v, Mem/FaultsAny.v, Mem/StreamFaults.v.        *)
 From Coq Require Import NArith List Lia.
 From ST Require Import Base.Outcome Mem.Heap Mem.Buffer Mem.BufferRun Mem.BufferInv Mem.BufferSteps
-  Mem.BufferHistory Mem.StringOps Mem.StringProofs Mem.Faults Mem.Stream Mem.StreamInv Mem.StreamFaults.
+  Mem.BufferHistory Mem.StringOps Mem.StringProofs Mem.Faults Mem.FailCount Mem.FaultsAny Mem.Stream Mem.StreamInv
+  Mem.StreamFaults.
 Import ListNotations.
 
 (* buffer members: the exception reaches the caller; the invariant holds afterwards (nothing leaked,
@@ -45,6 +49,56 @@ Theorem c19_string_operation : forall L, 1 <= L -> forall st s t,
 Proof. exact fault_top. Qed.
 Print Assumptions c19_string_operation.
 
+(* ---- the fault at ANY allocation of an operation ----
+   the number of allocations a buffer operation performs is the growth of the block counter: exactly one if
+   `allocates` says so, none otherwise *)
+Theorem c19_allocation_count : forall L, 1 <= L -> forall op st st1,
+  run_bop L op st = (Ok tt, st1) -> nb st1 = nb st + b2n (allocates L st op).
+Proof. exact delta_bop. Qed.
+Print Assumptions c19_allocation_count.
+
+(* a fault scheduled at allocation k does not disturb a history that performs at most k allocations: same result,
+   same state, the schedule now standing at k minus the allocations performed *)
+Theorem c19_schedule_transparent : forall L ops st a st', nofail st -> run_ops L ops st = (Ok a, st') ->
+  nofail st' /\ nb st <= nb st' /\
+  forall k, nb st' - nb st <= k ->
+    run_ops L ops (with_fail st (Some k)) = (Ok a, with_fail st' (Some (k - (nb st' - nb st)))).
+Proof. intros L ops. exact (sim_run_ops L ops). Qed.
+Print Assumptions c19_schedule_transparent.
+
+(* any well-formed history, the fault scheduled at allocation number k: it either completes exactly as without a
+   schedule, or stops with std::bad_alloc at the operation performing allocation number k, in the state
+   c19_buffer_member describes for that operation *)
+Theorem c19_any_allocation_of_a_history : forall L, 1 <= L -> forall ops st s k,
+  Inv L st -> Rel st s -> wf_history s ops ->
+  exists stf, run_ops L ops st = (Ok tt, stf) /\ Inv L stf /\ Rel stf (fold_left spec_bop ops s) /\
+    nb st <= nb stf /\
+    (nb stf - nb st <= k ->
+       run_ops L ops (with_fail st (Some k)) = (Ok tt, with_fail stf (Some (k - (nb stf - nb st))))) /\
+    (k < nb stf - nb st ->
+       exists st'', run_ops L ops (with_fail st (Some k)) = (Throw BadAlloc, st'') /\ fails_at L ops st s k st'').
+Proof. exact fault_history. Qed.
+Print Assumptions c19_any_allocation_of_a_history.
+
+(* any string operation that does not throw by itself, with any number of temporaries (ST::format, codecs,
+   conversions, split pieces: TFreshVia), the fault at any of its allocations: bad_alloc reaches the caller after
+   the temporaries and the half-built result have been destroyed; the invariant holds (so everything can be read,
+   assigned to and destroyed, nothing is leaked or freed twice); every object of the caller that the operation does
+   not name keeps its record and contents; no temporary and no half-built result is left *)
+Theorem c19_any_allocation_of_an_operation : forall L, 1 <= L -> forall st s t k,
+  Inv L st -> Rel st s -> top_wf s t -> snd (expand t) = None ->
+  exists stf, run_top L t st = (Ok tt, stf) /\ Inv L stf /\ Rel stf (spec_top s t) /\ nb st <= nb stf /\
+    (nb stf - nb st <= k ->
+       run_top L t (with_fail st (Some k)) = (Ok tt, with_fail stf (Some (k - (nb stf - nb st))))) /\
+    (k < nb stf - nb st ->
+       exists st', run_top L t (with_fail st (Some k)) = (Throw BadAlloc, st') /\ Inv L st' /\
+         (forall x r, user_slot x -> ~ In x (touched t) -> objs st x = Some r ->
+                      objs st' x = Some r /\ contents st' r = contents st r) /\
+         (forall j, j < scratch_slots -> objs st' (scratch_base + j) = None) /\
+         (forall x, In x (under_construction t) -> objs st' x = None)).
+Proof. exact fault_top_any. Qed.
+Print Assumptions c19_any_allocation_of_an_operation.
+
 (* string_stream growth: `new` comes first, so a failing growth leaves the stream exactly as it was *)
 Theorem c19_stream_append : forall STK, 1 <= STK -> forall st o r d,
   SInv STK st -> sobjs st o = Some r -> s_alloc r < s_size r + length d ->
@@ -66,4 +120,18 @@ Example c19_nonvacuous :
   fst (run_bop 16 (BAsg 0 2) (arm st)) = Throw BadAlloc /\
   fst (run_top 16 (TAppend 1 0 ([97%N] ++ long)) (arm st)) = Throw BadAlloc /\
   fst (run_top 16 (TFreshNRVO 3 0 long) (arm st)) = Throw BadAlloc.
+Proof. vm_compute. repeat split; reflexivity. Qed.
+
+(* an operation with three allocations (two long temporaries, a long result): each of them fails cleanly, and a
+   fault scheduled beyond them leaves the operation undisturbed *)
+Example c19_nonvacuous_several_allocations :
+  let long := repeat 120%N 20 in
+  let st := snd (run_ops 16 [BNew 0 long; BNew 1 [97%N]] store0) in
+  let t := TFreshVia 2 0 [long; [98%N]; long] (long ++ long) in
+  nb (snd (run_top 16 t st)) - nb st = 3 /\
+  fst (run_top 16 t (with_fail st (Some 0))) = Throw BadAlloc /\
+  fst (run_top 16 t (with_fail st (Some 1))) = Throw BadAlloc /\
+  fst (run_top 16 t (with_fail st (Some 2))) = Throw BadAlloc /\
+  fst (run_top 16 t (with_fail st (Some 3))) = Ok tt /\
+  live_blocks (hp (snd (run_top 16 t (with_fail st (Some 2))))) = live_blocks (hp st).
 Proof. vm_compute. repeat split; reflexivity. Qed.
